@@ -21,8 +21,11 @@
 
 #define MAXT 16
 typedef struct { char kind; int slot; const ViewBinding* v; char op[12], path[12]; long fidx; uint64_t val; long base;
-                 int dt, withdest; long cap; uint8_t* bytes; size_t n; } Cmd;
-typedef struct { Cmd* cmds; size_t n, capn; char* out; size_t outn, outcap; uint8_t* slots[4]; size_t slotlen[4]; int tid; } Thr;
+                 int dt, withdest; long cap; uint8_t* bytes; size_t n; uint8_t* orig; } Cmd;
+typedef struct { uint16_t data_length; void* data; } PArr;
+typedef struct { Cmd* cmds; size_t n, capn; char* out; size_t outn, outcap; uint8_t* slots[4]; size_t slotlen[4]; int tid;
+                 PArr parr;      /* the thread's descriptor for length queries, reused from call to call like a real caller's */
+               } Thr;
 static Thr thr[MAXT];
 static uint8_t* shared; static size_t sharedlen;
 static pthread_barrier_t bar;
@@ -60,10 +63,14 @@ static void* worker(void* arg)
             uint8_t* res = malloc(c->cap + 16); size_t reslen;
             arr.data_length = 0xBEEF; arr.data = dest;
             if (is_var(c->dt)) data.data_string = (VssDataString_t*)&arr;
+            if (is_var(c->dt) && !c->withdest) {       /* length query through the thread's persistent descriptor (never given a destination) */
+                t->parr.data_length = 0xBEEF; data.data_string = (VssDataString_t*)&t->parr;
+            }
             Avtp_Vss_GetVssData((Avtp_Vss_t*)(c->bytes + c->base), &data);
             int n = snprintf(tmp, sizeof tmp, "%d %zu R ok 0000000000000000 0 0000000000000000 ", t->tid, i); outf(t, tmp, n);
             outhex(t, c->bytes, c->n);
-            if (is_var(c->dt)) { reslen = arr.data_length; if (dest) from_host(dest, res, reslen > (size_t)c->cap ? (size_t)c->cap : reslen, es); }
+            if (is_var(c->dt) && !c->withdest) { reslen = t->parr.data_length; }
+            else if (is_var(c->dt)) { reslen = arr.data_length; if (dest) from_host(dest, res, reslen > (size_t)c->cap ? (size_t)c->cap : reslen, es); }
             else { reslen = es; from_host((uint8_t*)&data, res, es, es); }
             n = snprintf(tmp, sizeof tmp, " 0 len=%zu data=", reslen); outf(t, tmp, n);
             if (dest || !is_var(c->dt)) outhex(t, res, reslen > (size_t)c->cap && dest ? (size_t)c->cap : reslen); else outf(t, "-", 1);
@@ -100,6 +107,7 @@ int main(int argc, char** argv)
         } else if (c->kind == 'V' && n >= 6) {
             c->dt = atoi(tok[1]); c->withdest = atoi(tok[2]); c->cap = atol(tok[3]); c->base = atol(tok[4]);
             c->n = unhex(tok[5], buf, sizeof buf); c->bytes = malloc(c->n + 8); memcpy(c->bytes, buf, c->n);
+            c->orig = malloc(c->n + 8); memcpy(c->orig, buf, c->n);
         } else continue;
         t->n++;
     }
@@ -116,5 +124,10 @@ int main(int argc, char** argv)
     for (int i = 0; i < nt; i++) pthread_create(&th[i], NULL, worker, &thr[i]);
     for (int i = 0; i < nt; i++) pthread_join(th[i], NULL);
     for (int i = 0; i < nt; i++) fwrite(thr[i].out, 1, thr[i].outn, stdout);
+    /* read-only calls leave every message they were given as it was - also the messages of EARLIER calls */
+    for (int i = 0; i < nt; i++) for (size_t k = 0; k < thr[i].n; k++) {
+        Cmd* c = &thr[i].cmds[k];
+        if (c->kind == 'V' && c->orig && memcmp(c->bytes, c->orig, c->n)) fprintf(stderr, "##PDU-MODIFIED thread %d command %zu (datatype %d)\n", i, k, c->dt);
+    }
     return 0;
 }
